@@ -895,6 +895,17 @@ class Sim:
                 r = a.variant == 1
                 return ("value", int(r if p.endswith("is_some") else not r))
             return ("value", UNK)
+        if p == "std::result::Result::<std::option::Option<T>, E>::transpose":
+            a = d[0]
+            if isinstance(a, Adt):
+                if a.variant == 1:
+                    return ("value", Adt("std::option::Option", 1, [Adt("std::result::Result", 1, a.fields)]))
+                o = a.fields[0]
+                if isinstance(o, Adt):
+                    if o.variant == 0:
+                        return ("value", Adt("std::option::Option", 0, []))
+                    return ("value", Adt("std::option::Option", 1, [Adt("std::result::Result", 0, o.fields)]))
+            return ("value", UNK)
         if p == "std::option::Option::<T>::take":
             return None
         if p == "core::slice::<impl [T]>::contains" or p.endswith("<impl [T]>::contains"):
